@@ -130,6 +130,23 @@ def run(ctx):
                             else kw.get("ppid")
                         if pp != "self._ppid":
                             bad.append(f"ZombieProcess ppid={pp}")
+        # constructor ROLES, everywhere in the module (methods raise these directly
+        # too): NoSuchProcess(pid, name[, msg]) and AccessDenied(pid, name[, msg]) take
+        # a message third - only ZombieProcess(pid, name, ppid) takes the parent pid
+        for fi_ in repo.all_funcs(pm):
+            for r in ast.walk(fi_.node):
+                if isinstance(r, ast.Raise) and isinstance(r.exc, ast.Call) \
+                        and dotted(r.exc.func) in ("NoSuchProcess", "AccessDenied") \
+                        and len(r.exc.args) >= 3:
+                    third = r.exc.args[2]
+                    d3 = dotted(third) or ""
+                    src3 = srcs.get(d3, d3)
+                    if "ppid" in d3.lower() or "ppid" in (src3 or "").lower() \
+                            or (isinstance(third, ast.Constant) and not isinstance(third.value, str)):
+                        ctx.fail("C20.R2", f"{pm}:ctor-roles:{fi_.qual}", fi_.file, r.lineno, fi_.qual,
+                                 f"`{norm_stmt(r.exc)}`: the third parameter of "
+                                 f"{dotted(r.exc.func)} is the MESSAGE; passing the parent pid makes "
+                                 f"str(exc) raise TypeError (only ZombieProcess takes a ppid)")
         if bad:
             ctx.fail("C20.R2", f"{pm}:args", w.file, w.node.lineno, w.qual,
                      f"[{pm}] translated errors do not carry (self.pid, self._name"
@@ -575,18 +592,16 @@ def _windows_meminfo(ctx, repo):
     # (1) the fallback tuple
     f = repo.func(pm, "Process._get_raw_meminfo")
     tup = None
+    keys = None
     for r in ast.walk(f.node):
-        if isinstance(r, ast.Return) and isinstance(r.value, ast.Tuple) and len(r.value.elts) > 3:
-            tup = r.value
+        if isinstance(r, ast.Return) and r.value is not None:
+            ks_ = _pinfo_keys(repo, r.value)
+            if ks_ is None and isinstance(r.value, ast.Tuple) and len(r.value.elts) > 3:
+                ks_ = [_pinfo_key(x) for x in r.value.elts]
+            if ks_ and len(ks_) > 3:
+                tup, keys = r.value, ks_
     if tup is None:
         raise AnalysisError("_get_raw_meminfo: fallback record vanished")
-    keys = []
-    for e in tup.elts:
-        k = None
-        if isinstance(e, ast.Subscript) and isinstance(e.slice, ast.Subscript) \
-                and dotted(e.slice.value) == "pinfo_map" and isinstance(e.slice.slice, ast.Constant):
-            k = e.slice.slice.value
-        keys.append(k)
     bad = [(i, k, rest[i] if i < len(rest) else None) for i, k in enumerate(keys)
            if i >= len(rest) or k is None or nk(k) != nk(rest[i])]
     if not bad and len(keys) == len(rest):
@@ -664,6 +679,34 @@ def _pinfo_key(e):
     return None
 
 
+def _pinfo_keys(repo, e):
+    """The proc_info() field names a record expression is built from, in order:
+    a tuple of `info[pinfo_map['k']]`, or a call `self.<sel>('k1', 'k2', ...)` of a
+    selector method (`def sel(self, *names): ...; return tuple(info[pinfo_map[n]] for n
+    in names)`).  None if the expression is neither."""
+    if isinstance(e, ast.Tuple) and e.elts and all(_pinfo_key(x) for x in e.elts):
+        return [_pinfo_key(x) for x in e.elts]
+    if isinstance(e, ast.Call) and isinstance(e.func, ast.Attribute) and dotted(e.func.value) == "self" \
+            and e.args and all(isinstance(a, ast.Constant) and isinstance(a.value, str) for a in e.args):
+        for f_ in repo.funcs("_pswindows", f"Process.{e.func.attr}"):
+            va = f_.node.args.vararg
+            rets = [r for r in ast.walk(f_.node) if isinstance(r, ast.Return) and r.value is not None]
+            if va is None or len(rets) != 1:
+                continue
+            v = rets[0].value
+            if isinstance(v, ast.Call) and dotted(v.func) in ("tuple", "list") and v.args:
+                v = v.args[0]
+            if isinstance(v, (ast.GeneratorExp, ast.ListComp)) and len(v.generators) == 1 \
+                    and dotted(v.generators[0].iter) == va.arg and not v.generators[0].ifs \
+                    and isinstance(v.generators[0].target, ast.Name):
+                el = v.elt
+                tv = v.generators[0].target.id
+                if isinstance(el, ast.Subscript) and isinstance(el.slice, ast.Subscript) \
+                        and dotted(el.slice.value) == "pinfo_map" and dotted(el.slice.slice) == tv:
+                    return [a.value for a in e.args]
+    return None
+
+
 def _windows_fallbacks(ctx, repo):
     """io_counters() / cpu_times() access-denied fallbacks: each slot rebuilt from
     proc_info() stands for the documented field at that position."""
@@ -679,10 +722,10 @@ def _windows_fallbacks(ctx, repo):
     f = repo.func(pm, "Process.io_counters")
     fields = nt_fields(pm, "pio")
     tup = [st.value for st in ast.walk(f.node) if isinstance(st, ast.Assign)
-           and isinstance(st.value, ast.Tuple) and all(_pinfo_key(e) for e in st.value.elts)]
+           and _pinfo_keys(repo, st.value)]
     if not fields or not tup:
         raise AnalysisError("_pswindows io_counters fallback / pio vanished")
-    keys = [_pinfo_key(e) for e in tup[0].elts]
+    keys = _pinfo_keys(repo, tup[0])
     got = [P.WIN_PINFO_FIELD.get(k) for k in keys]
     if got == fields:
         ctx.ok("C20.R5", "win-io:fallback", sample=keys)
@@ -695,6 +738,12 @@ def _windows_fallbacks(ctx, repo):
     calls = [c for c in calls_in(f.node) if (dotted(c.func) or "").endswith("pcputimes")]
     asg = {dotted(st.targets[0]): _pinfo_key(st.value) for st in ast.walk(f.node)
            if isinstance(st, ast.Assign) and _pinfo_key(st.value)}
+    for st in ast.walk(f.node):
+        if isinstance(st, ast.Assign) and isinstance(st.targets[0], ast.Tuple):
+            ks_ = _pinfo_keys(repo, st.value)
+            if ks_ and len(ks_) == len(st.targets[0].elts):
+                for t_, k_ in zip(st.targets[0].elts, ks_):
+                    asg[dotted(t_)] = k_
     want = nt_fields("_common", "pcputimes")
     if not calls or not want:
         raise AnalysisError("_pswindows cpu_times / pcputimes vanished")
